@@ -34,11 +34,14 @@ def run_sharded(exe, cmds, timeout=1500):
     def one(chunk):
         if not chunk:
             return []
-        rc, out, err = vlib.sh([exe], inp="\n".join(chunk) + "\n", timeout=timeout)
-        lines = out.split("\n")[:-1]
-        if rc != 0 or len(lines) != len(chunk):
-            return ("ERR", rc, out[-300:] + err[-300:])
-        return lines
+        for attempt in (0, 1):
+            rc, out, err = vlib.sh([exe], inp="\n".join(chunk) + "\n", timeout=timeout)
+            lines = out.split("\n")[:-1]
+            if rc == 0 and len(lines) == len(chunk):
+                return lines
+            if rc not in (-9, -15, 137, 143):     # killed from outside (shared machine): retry once; a crash of the code under test is not retried
+                break
+        return ("ERR", rc, out[-300:] + err[-300:])
     with ThreadPoolExecutor(max_workers=NSHARD) as ex:
         rs = list(ex.map(one, chunks))
     out = [None] * len(cmds)
@@ -171,16 +174,30 @@ def run(ck):
     p2 = c07_oracle.parse_answer(pr[1]) if len(pr) > 1 and pr[1] else None
     v1 = p1 is not None and p1["sa_from_sa"] == p1["pp_size"] and p1["pp_size"] != 8
     v2 = p2 is not None and any(x.startswith("mov G8.9,G8.31") for x in p2["P"])
-    sa_fix = 1 if (v1 and v2) else 0
-    if v1 != v2:
-        ck.violation("C07/a64/variant-probe-inconsistent", "AArch64 SA-register handling is half-fixed: FP-relative offset fixed=%s, SA register initialised=%s" % (v1, v2),
-                     {"command": "F 2 0 0 9 1 0 0 0 0 0 0 0 0 255", "impl": pr[0], "broken": "tree variant probe"}, no_input=True)
-    ck.log("tree variant: a64 SA-register fix %s" % ("present" if sa_fix else "absent"))
+    # both repairs are committed in /repo (872941b, a53b13c): the model always describes the fixed behaviour; the probes remain only as
+    # detectors — a tree without (or with half of) a repair is a returning defect = VIOLATION with the probe frame as input
+    sa_fix = 1
+    if not (v1 and v2):
+        ck.violation("C07/a64/sa-register-fix-missing", "AArch64 SA-register handling regressed: FP-relative argument offset fixed=%s, SA register initialised=%s "
+                     "(F 2 0 0 9 1 ... reports sa_offset_from_sa=%s for a %s-byte push/pop area)" % (v1, v2, p1 and p1["sa_from_sa"], p1 and p1["pp_size"]),
+                     {"command": "F 2 0 0 9 1 0 0 0 0 0 0 0 0 255" if not v1 else "F 2 0 0 9 0 0 0 0 0 0 0 0 0 9", "impl": pr[0] if not v1 else pr[1]})
+    ck.log("a64 SA-register fix %s" % ("present" if (v1 and v2) else "MISSING"))
     # fixes/C07-finalize-too-large.patch: does finalize refuse frames whose sizes wrap the 32-bit arithmetic?
     pb = vlib.sh([impl], inp="F 1 0 0 2 0 8 0 0 0 4294967232 0 4096 0 255\n")[1]
     too_large_fix = " L ?" in pb
-    ck.log("tree variant: finalize kTooLarge check %s" % ("present" if too_large_fix else "absent"))
-    mcmds = [c + " " + argstack_of(a) + " 0 %d" % sa_fix for c, a in zip(cmds, ri)]
+    if not too_large_fix:
+        ck.violation("C07/x64/oversized-frame-accepted", "F 1 0 0 2 0 8 0 0 0 4294967232 0 4096 0 255 -> finalize accepts call+local sizes that wrap the 32-bit frame "
+                     "arithmetic (kTooLarge check missing): %s" % pb[:200], {"command": "F 1 0 0 2 0 8 0 0 0 4294967232 0 4096 0 255", "impl": pb.strip()})
+    ck.log("finalize kTooLarge check %s" % ("present" if too_large_fix else "MISSING"))
+    # proposed fixes/C07-a64-refuse-unrealisable-frames.patch: does finalize refuse AArch64 frames with dynamic alignment / 128-bit vector saves?
+    pq = vlib.sh([impl], inp="F 2 0 0 2 0 0 0 0 0 40 32 0 0 255\nF 2 0 16 2 0 0 16 0 0 0 0 0 0 255\n")[1].split("\n")
+    r1, r2 = (" L ?" in pq[0]), (len(pq) > 1 and " L ?" in pq[1])
+    a64_refusal = 1 if (r1 and r2) else 0
+    if r1 != r2:
+        ck.violation("C07/a64/refusal-probe-inconsistent", "AArch64 refusal of unrealisable frames is half-applied: dynamic alignment refused=%s, 128-bit vector saves refused=%s" % (r1, r2),
+                     {"command": "F 2 0 16 2 0 0 16 0 0 0 0 0 0 255", "impl": pq[1] if len(pq) > 1 else "", "broken": "tree variant probe"}, no_input=True)
+    ck.log("tree variant: a64 refusal of unrealisable frames %s" % ("present" if a64_refusal else "absent"))
+    mcmds = [c + " " + argstack_of(a) + " 0 %d %d" % (sa_fix, a64_refusal) for c, a in zip(cmds, ri)]
     rm = run_sharded(model, mcmds) if ri else []
     if isinstance(rm, tuple):
         ck.violation("C07/model-crash", "model driver failed: %s" % (rm,), {"commands": mcmds[:3], "detail": str(rm), "broken": "model driver"}, no_input=True)
@@ -262,8 +279,8 @@ def run(ck):
                 sc["refused_by_emitter"] += 1
             elif arch != 2:
                 sc["roundtrip_x86"] += 1
-            elif cc <= 7 and pa["final_align"] <= 16 and pa["sa_reg"] == 31:
-                sc["roundtrip_a64"] += 1
+            elif pa["has_da"] == 0 and (pa["srsize"][1] == 8 or (pa["dirty"][1] & pa["preserved"][1]) == 0):
+                sc["roundtrip_a64"] += 1          # = a64_realisable: scope of C07_roundtrip_a64 / C07_roundtrip_a64_accepted
             else:
                 sc["a64_outside_scope(findings)"] += 1
             fm = stats.setdefault("feature_matrix", {})
@@ -331,9 +348,14 @@ def run(ck):
     if isinstance(rc_, tuple):
         ck.violation("C07/compiled/harness-crash", "harness failed on compiled-frame commands: %s" % (rc_,), {"commands": ccmds[:2], "broken": "harness"}, no_input=True)
     else:
+        for c, a in zip(ccmds, rc_):
+            if a.startswith("C 1 diverges"):
+                comp_stats["diverged"] = comp_stats.get("diverged", 0) + 1
+                ck.violation("C07/a64/compiler-diverges-on-over-aligned-frame-with-stack-args", "%s -> the AArch64 Compiler does not terminate (memory/time limit hit "
+                             "in emit_args_assignment): function with stack-passed arguments and a stack slot aligned to more than 16 (%s)" % (c, a), {"command": c, "impl": a})
         good = [(c, a.split(" | ")) for c, a in zip(ccmds, rc_) if a.startswith("C 0 | ")]
         comp_stats["errors"] = len(ccmds) - len(good)
-        mcs = ["F " + parts[1] + " 1 %d" % sa_fix for (_c, parts) in good]
+        mcs = ["F " + parts[1] + " 1 %d %d" % (sa_fix, a64_refusal) for (_c, parts) in good]
         rmc = run_sharded(model, mcs) if good else []
         if isinstance(rmc, tuple):
             ck.violation("C07/compiled/model-crash", "model driver failed: %s" % (rmc,), {"commands": mcs[:2], "broken": "model driver"}, no_input=True)
@@ -366,6 +388,9 @@ def run(ck):
             if h[5] != "0":
                 found |= ck.violation("C07/compiled/sp-access-outside-declared-areas", "%s -> %s sp-based memory operands of the body lie outside call area, "
                                       "local area and stack arguments (%s)" % (c, h[5], h[7]), rep)
+            if len(h) > 8 and h[8] != "0":
+                found |= ck.violation("C07/compiled/local-slot-read-before-written", "%s -> %s reads of local-area slots that no earlier instruction of the "
+                                      "(straight-line) function wrote: an argument/spill was stored at another offset than the body reads (%s)" % (c, h[8], h[7]), rep)
             if canon_impl(ans) != m:
                 comp_stats["disagreements"] += 1
                 if not found:
@@ -460,6 +485,29 @@ def run(ck):
                                  "%s -> native execution on the host: %s" % (c, a), {"command": c, "impl": a})
     stats["native_executed"] = nat_run; stats["native_skipped"] = nat_skip; stats["native_failed"] = nat_bad
 
+    # compiled x86-64 functions executed natively under the frame monitor (stack arguments without a register at entry, dynamic
+    # alignment => arguments moved into local slots, calls => local_stack_offset != 0, spills, optional FP)
+    ncmds = ["N 1 0 0 0 0 0 0 0 0 0 0 0 0 255 %d" % rng.getrandbits(40) for _ in range(800 if ck.tier == "quick" else 20000)]
+    rn2 = run_sharded(impl, ncmds)
+    nstats = {"functions": len(ncmds), "ok": 0, "skipped": 0, "failed": 0, "with_da": 0, "with_calls": 0, "with_stack_args": 0, "moved_args_and_call_area": 0}
+    if isinstance(rn2, tuple):
+        ck.violation("C07/native-compiled-crash", "native execution of compiled functions died: %s" % (rn2,), {"commands": ncmds[:3], "broken": "native execution"}, no_input=True)
+    else:
+        for c, a in zip(ncmds, rn2):
+            m = re.search(r"nargs=(\d+) ngp=(\d+) calls=(\d+) fp=(\d) alignedLocal=(\d+) da=(\d)", a)
+            if m:
+                na, _g, nc, fpf, _al, da = [int(x) for x in m.groups()]
+                nstats["with_da"] += da; nstats["with_calls"] += 1 if nc else 0; nstats["with_stack_args"] += 1 if na > 6 else 0
+                nstats["moved_args_and_call_area"] += 1 if (na > 15 and da and not fpf and nc) else 0
+            if a.startswith("N ok"):
+                nstats["ok"] += 1
+            elif a.startswith("N skip"):
+                nstats["skipped"] += 1
+            else:
+                nstats["failed"] += 1
+                ck.violation("C07/x64/native-compiled/" + a.split()[1], "%s -> compiled function executed natively: %s" % (c, a), {"command": c, "impl": a})
+    stats["native_compiled"] = nstats
+
     for o in ck.proof_failures():
         ck.violation("C07/proof/" + o["name"], "theorem %s no longer checks (%s)" % (o["name"], getattr(ck, "coq_log", "")[-800:]),
                      {"broken": "theorem " + o["name"], "file": "coq/theories/Properties/Properties_C07.v"}, no_input=True)
@@ -473,7 +521,7 @@ def run(ck):
                  "mask classes, size/alignment boundaries, FP/calls/AVX/AVX-512 flags, SA register); a frame is non-trivial when the real prolog has at "
                  "least one instruction (distinct command lines counted)",
          "samples": samples, "distribution": stats, "model_vs_impl_disagreements": disagreements,
-         "tree_variant": {"a64_sa_register_fix": bool(sa_fix)}, "frames_judged_by_oracle": len(verdicts), "traces_validated_against_impl": len(cmds)},
+         "tree_variant": {"a64_refusal_of_unrealisable_frames": bool(a64_refusal)}, "frames_judged_by_oracle": len(verdicts), "traces_validated_against_impl": len(cmds)},
         assumptions=["the C++ harness calls the real FuncDetail::init, FuncFrame::init/finalize and BaseEmitter::emit_prolog/emit_epilog of /repo's working tree",
                      "theorems are about the Gallina model (FrameModel.v) and the abstract machine (FrameMachine.v); the model is tied to the code by the "
                      "exact differential of this check; the machine's instruction semantics are trusted (validated by the python interpreter and native runs)",
